@@ -71,6 +71,14 @@ def plan(seed, subbatch):
     a, b, relation = adversarial_pair(cfg, tf)
     if cfg.random() < 0.4:
         a, b = b, a
+    if tf and relation != "tf_suffix" and cfg.random() < 0.35:
+        # both on the same non-default timeframe (they must share one candle manager); the later one
+        # may give it in the enum form
+        a["common"]["timeframe"] = tf
+        b["common"]["timeframe"] = tf
+        if cfg.random() < 0.6:
+            (b if cfg.random() < 0.7 else a)["common"]["tf_as_enum"] = True
+        relation += "+shared_tf"
     members = [a, b]
     for extra in sample_members(cfg, cfg.choice((0, 0, 1, 2)), [None, tf] if tf else [None], max_period=8):
         if member_name(extra) not in {member_name(m) for m in members} and not any(
